@@ -19,10 +19,30 @@ def rng_for(name):
 
 
 def ncases():
-    return 6000 if os.environ.get("VERIF_TIER") == "thorough" else 400
+    return 30000 if os.environ.get("VERIF_TIER") == "thorough" else 3000
+
+
+def gen_int(rng, with_constraints):
+    """Small-integer instances: exact ties, active constraints hit at non-zero steps, rank deficiency are frequent here."""
+    n = int(rng.integers(2, 5))
+    grad = rng.integers(-4, 5, n).astype(float)
+    A = rng.integers(-2, 3, (n, n)).astype(float)
+    H = [np.zeros((n, n)), A + A.T, A @ A.T, -(A @ A.T)][int(rng.integers(0, 4))]
+    xl = -rng.integers(0, 4, n).astype(float)
+    xu = rng.integers(0, 4, n).astype(float)
+    xl[rng.random(n) < 0.3] = -np.inf
+    xu[rng.random(n) < 0.3] = np.inf
+    d = dict(n=n, grad=grad, H=H, xl=xl, xu=xu, delta=float(rng.integers(1, 4)), improve_tcg=bool(rng.random() < 0.8))
+    if with_constraints:
+        mub, meq = int(rng.integers(0, 4)), int(rng.integers(0, 2))
+        d.update(aub=rng.integers(-2, 3, (mub, n)).astype(float), bub=rng.integers(0, 4, mub).astype(float),
+                 aeq=rng.integers(-2, 3, (meq, n)).astype(float), beq=rng.integers(-2, 3, meq).astype(float))
+    return d
 
 
 def gen(rng, with_constraints):
+    if rng.random() < 0.5:
+        return gen_int(rng, with_constraints)
     n = int(rng.integers(1, 7))
     mag = 10.0 ** rng.uniform(-6, 6)
     grad = rng.standard_normal(n) * mag * (rng.random() > 0.08)
@@ -121,7 +141,8 @@ class ConstrainedTangentialBounded(Bounded):
         scale = np.abs(d["grad"]) @ np.abs(s) + 0.5 * np.abs(s) @ np.abs(d["H"]) @ np.abs(s)
         info = {k: (v.tolist() if isinstance(v, np.ndarray) else v) for k, v in d.items()}
         ns = np.linalg.norm(s)
-        tol_ub = 1e-9 * (np.abs(d["aub"]) @ np.abs(s) + np.abs(d["bub"])) + 1e-300
+        # "up to rounding": relative to the size of the data of each row (|a_i| |s| + |b_i|), not to the possibly cancelling a_i.s
+        tol_ub = 1e-9 * (np.linalg.norm(d["aub"], axis=1) * ns + np.abs(d["bub"])) + 1e-300 if d["aub"].size else 0.0
         tol_eq = 1e-8 * (np.abs(d["aeq"]) @ np.abs(s)) + 1e-300 + 1e-9 * ns * np.linalg.norm(d["aeq"], axis=1) if d["aeq"].size else 0.0
         yield "C15.constrained_tangential.step_within_bounds", in_bounds(s, d["xl"], d["xu"]) and not np.any(np.isnan(s)), info
         yield "C15.constrained_tangential.norm_within_radius", ns <= tolstep(d["delta"]), info
